@@ -70,6 +70,12 @@ def install(I):
                 # round(x, 0) keeps the type of x: a float stays a float (with an integral value)
                 r = ops.py_round(x)
                 return ops.py_float(r) if x.k == 'real' else r
+            if isinstance(a[1], int) and not isinstance(a[1], bool) and 0 < a[1] <= 9 and isinstance(x, SymVal) and x.k == 'real':
+                # round(x, n) = round-half-even(x * 10^n) / 10^n over the reals (floats treated as mathematical reals)
+                scaled = I.binop('Mult', x, 10 ** a[1])
+                return I.binop('Div', ops.py_float(ops.py_round(scaled)), 10 ** a[1])
+            if isinstance(a[1], int) and not isinstance(a[1], bool) and a[1] > 0 and isinstance(x, SymVal) and x.k == 'int':
+                return x
             raise _interp_mod().Unsupported('round with ndigits on symbolic value')
         if isinstance(x, (int, float)) and not isinstance(x, bool):
             try:
